@@ -48,6 +48,11 @@ class Expiring(Mapping):
             del self.d[k]
             self.pending.append(k)
 
+    def __setitem__(self, k, v):
+        self.d[k] = v
+        if self.when == 'setitem':       # a mapping that does not keep what it is given (size 0, weak values ...)
+            self._expire(k)
+
     def __contains__(self, k):
         r = k in self.d
         if r and self.when == 'contains':
